@@ -25,6 +25,74 @@ def assigned_label(bi, path, local, is_input):
     return label
 
 
+def _last_def(bi, blocks, pos, local):
+    """the last definition of `local` on the path `blocks[:pos+1]` (statements of blocks[pos] included, its terminator
+    not): ("stmt", i, stmt) | ("call", i, term) | None"""
+    for i in range(pos, -1, -1):
+        blk = bi.body.blocks[blocks[i]]
+        if i < pos:
+            t = blk.term
+            if t.k == "call" and t.dest is not None and t.dest.is_local() and t.dest.local == local:
+                return ("call", i, t)
+        for s in reversed(blk.stmts):
+            if s.k == "assign" and s.lhs.is_local() and s.lhs.local == local:
+                return ("stmt", i, s)
+    return None
+
+
+def value_items(bi, path, local, is_input, pos=None, depth=0):
+    """what `local` holds at the end of the path, as [(lo, hi, label)] over the path's interval: follows copies through
+    intermediate locals and `Ord::min(value, const)` (which splits the interval at the constant)."""
+    blocks = list(path.blocks)
+    pos = len(blocks) - 1 if pos is None else pos
+    unknown = [(path.lo, path.hi, "?")]
+    if depth > 12:
+        return unknown
+    d = _last_def(bi, blocks, pos, local)
+    if d is None:
+        if is_input(bi.trace(local)) and not bi.defs.get(local):
+            return [(path.lo, path.hi, "input")]
+        return unknown
+
+    def of_operand(op, at):
+        if op.const_int() is not None:
+            return [(path.lo, path.hi, "const %d" % op.const_int())]
+        if op.place is None or not op.place.is_local():
+            return unknown
+        if not bi.defs.get(op.place.local) and is_input(bi.trace(op)):
+            return [(path.lo, path.hi, "input")]
+        return value_items(bi, path, op.place.local, is_input, at, depth + 1)
+
+    kind, i, x = d
+    if kind == "stmt":
+        if x.rv.k != "use":
+            return unknown
+        return of_operand(x.rv.ops[0], i)
+    name = x.callee.path.split("::")[-1] if x.callee is not None else ""
+    if name == "min" and x.callee.path in ("std::cmp::Ord::min", "core::cmp::Ord::min", "std::cmp::min", "core::cmp::min") and len(x.args) == 2:
+        a, b = x.args
+        if a.const_int() is not None:
+            a, b = b, a
+        c = b.const_int()
+        if c is None:
+            return unknown
+        out = []
+        for lo, hi, lab in of_operand(a, i):
+            if lab == "input":
+                if hi <= c:
+                    out.append((lo, hi, "input"))
+                elif lo > c:
+                    out.append((lo, hi, "const %d" % c))
+                else:
+                    out += [(lo, c, "input"), (c + 1, hi, "const %d" % c)]
+            elif lab.startswith("const "):
+                out.append((lo, hi, "const %d" % min(int(lab[6:]), c)))
+            else:
+                out.append((lo, hi, "?"))
+        return out
+    return unknown
+
+
 STAGE_CALLS = ("std::iter::Iterator::skip", "std::iter::Iterator::take", "std::iter::Iterator::filter")
 
 
@@ -136,6 +204,10 @@ def r13_1(prog, out):
                 lab = assigned_label(bi, p, size_local, is_input)
                 if lab == "?" and len(bi.defs.get(size_local, [])) == 1 and is_input(bi.trace(size_local)):
                     lab = "input"
+                if lab == "?":
+                    # the size passes through intermediate locals / `min(value, const)` (a normalising helper spliced in)
+                    items += value_items(bi, p, size_local, is_input)
+                    continue
             items.append((p.lo, p.hi, lab))
         got = merge_partition(items)
         expected = [(0, 0, "const 20"), (1, 1000, "input"), (1001, USIZE_MAX, "const 1000")]
